@@ -211,6 +211,20 @@ func (env *SpecEnv) dollarValue(name string) *Val {
 		env.fail("%s used outside a function body", name)
 	}
 	fr := st.frame
+	if strings.HasPrefix(name, "$phi_") {
+		// $phi_<var>: the value of the first phi with that source name that is computed on this path
+		want := strings.TrimPrefix(name, "$phi_")
+		for _, b := range fr.fn.Blocks {
+			for _, in := range b.Instrs {
+				if p, ok := in.(*ssa.Phi); ok && p.Comment == want {
+					if v, ok := fr.vals[p]; ok {
+						return v
+					}
+				}
+			}
+		}
+		env.fail("no phi named %s computed on this path", want)
+	}
 	counts := map[string]int{}
 	for _, b := range fr.fn.Blocks {
 		for _, in := range b.Instrs {
@@ -733,6 +747,11 @@ func (env *SpecEnv) call(e *ECall) *Val {
 		x := arg(0)
 		t := env.typeArg(e.Args[1])
 		if x.T.Sort == SIface {
+			if _, isI := t.Underlying().(*types.Interface); isI {
+				nv := *x
+				nv.Typ = t
+				return &nv
+			}
 			if isPointerLike(t) {
 				return scalar(iVal(x.T), t)
 			}
